@@ -1,3 +1,4 @@
+mod c13;
 mod c17;
 mod cli_run;
 mod cli_world;
@@ -16,6 +17,7 @@ use driver::*;
 fn sim_for(id: &str) -> Box<dyn Simulation> {
   match id {
     "C10" => Box::new(edit_world::EditSim),
+    "C13" => Box::new(c13::C13Sim),
     "C17" => Box::new(c17::C17Sim),
     _ => {
       eprintln!("HARNESS-ERROR: no simulation for property {id}");
